@@ -2,6 +2,7 @@
 
 use super::common::decrypt_table_data;
 use crate::compression::decompress;
+use crate::io::read_exact_vec;
 use crate::{Error, Result};
 use byteorder::{LittleEndian, ReadBytesExt};
 use std::io::{Read, Seek, SeekFrom};
@@ -77,8 +78,7 @@ impl BetTable {
         reader.seek(SeekFrom::Start(offset))?;
 
         // Read the compressed/encrypted data
-        let mut data = vec![0u8; compressed_size as usize];
-        reader.read_exact(&mut data)?;
+        let mut data = read_exact_vec(reader, compressed_size)?;
 
         // Check if we have at least the extended header (12 bytes)
         if data.len() < 12 {
